@@ -12,6 +12,7 @@ import SST.Drv.FS
 import SST.Drv.Stack
 import SST.Drv.BufReader
 import SST.Drv.TableDir
+import SST.Drv.Legacy
 open SST SST.Drv
 
 def handle (line : String) : String :=
@@ -48,6 +49,13 @@ def handle (line : String) : String :=
     | "bufr.file" => Bufr.bufrFile a
     | "bufr.stream" => Bufr.bufrStream a
     | "tbldir.run" => tblDirRun a
+    | "legacy.enc" => Legacy.legacyEnc a
+    | "legacy.read" => Legacy.legacyRead a
+    | "legacy.readat" => Legacy.legacyReadAt a
+    | "legacy.seeknext" => Legacy.legacySeekNext a
+    | "legacy.cuts" => Legacy.legacyCuts a
+    | "v0.enc" => Legacy.v0Enc a
+    | "v0.read" => Legacy.v0Read a
     | "ping" => "pong"
     | _ => "bad-op"
 
